@@ -47,6 +47,24 @@ def model_summary(shx):
             'fvars': [round(float(x.fvar_value), 9) for x in shx.fvars.fvars], 'sfac': [e.upper() for e in shx.sfac_table.elements_list]}
 
 
+def expected_restraint_residues(gf, shx):
+    """residue numbers every restraint with a residue suffix addresses, by construction"""
+    names = set(r.name.upper() for r in shx.restraints)
+    residues = [(l['number'], l['cls'].upper()) for l in gf['lines'] if l['kind'] == 'resi' and l['number'] > 0]
+    out = []
+    for l in gf['lines']:
+        if l['kind'] != 'instr' or l['kw'] not in names:
+            continue
+        sfx = l.get('suffix')
+        if not sfx:
+            out.append((l['kw'], [0]))
+        elif sfx.isdigit():
+            out.append((l['kw'], [int(sfx)]))
+        else:
+            out.append((l['kw'], sorted(set(n for n, c in residues if c == sfx.upper())) or [0]))
+    return out
+
+
 def expected_atoms(gf):
     return [(a['name'].upper(), a['sfac'], tuple(round(x, 9) for x in a['xyz']), a['qpeak']) for a in gf['atoms']]
 
@@ -68,6 +86,12 @@ def run(ctx):
         got = [(a[0], a[1], a[2], a[9]) for a in base['atoms']]
         if st0 != 'ok' or in0 or got != exp:
             common.add_violation(ctx, 'plain rendering of a valid file is not read as constructed', {'text': plain}, str(exp)[:300], str(got)[:300])
+            continue
+        exp_r = expected_restraint_residues(gf, shx0)
+        got_r = [(r[0].upper(), sorted(set(r[3]))) for r in base['restraints']]
+        if got_r != exp_r:
+            common.add_violation(ctx, 'residues addressed by the restraints of a valid file differ from the residues with that number / class (in any case)',
+                                 {'text': plain}, str(exp_r)[:300], str(got_r)[:300])
             continue
         for v in range(nvar):
             wild = rf.render_file(gf, rng, 'wild')
